@@ -1,5 +1,5 @@
-(* C11 — fiBIntPowerMod: the remainder (sign of the dividend) of the exact power, for every positive exponent;
-   for exponent 0 the code answers 1 without looking at the modulus, which is exact unless |c| = 1. *)
+(* C11 — fiBIntPowerMod: the remainder (sign of the dividend) of the exact power, for every exponent >= 0
+   and every non-zero modulus (exponent 0: the code answers bintMod(1, c)). *)
 Require Import ZArith List Bool Lia ZifyBool.
 Require Import AV.BigInt.Model AV.BigInt.Facts AV.BigInt.FactsCmp AV.BigInt.FactsAdd AV.BigInt.FactsMul
                AV.BigInt.FactsBits AV.BigInt.FactsShift AV.BigInt.FactsPow AV.BigInt.FactsGcd AV.BigInt.FactsMod.
@@ -56,17 +56,16 @@ Proof.
 Qed.
 
 Theorem powermod_exact : forall a b c, norm a -> norm b -> norm c -> val c <> 0 -> 0 <= val b ->
-  (val b = 0 -> Z.abs (val c) <> 1) ->
   exists r, fiBIntPowerMod a b c = Some r /\ val r = Z.rem (val a ^ val b) (val c) /\ norm r.
 Proof.
-  intros a b c Na Nb Nc Hc Hb Hunit. unfold fiBIntPowerMod.
+  intros a b c Na Nb Nc Hc Hb. unfold fiBIntPowerMod.
   destruct (sign_tests_exact c Nc) as (_ & Ezc & _). rewrite Ezc.
   destruct (Z.eqb_spec (val c) 0); [lia|].
   destruct (sign_tests_exact b Nb) as (Enb & Ezb & _). rewrite Ezb.
   assert (N1 : norm bint1) by (apply norm_imm; unfold IMM_MIN, IMM_MAX; lia).
   destruct (Z.eqb_spec (val b) 0) as [E0|Nz].
-  - exists bint1. split; [reflexivity|]. split; [|exact N1]. rewrite E0. change (val a ^ 0) with 1.
-    cbn [val bint1]. specialize (Hunit E0). symmetry. apply rem_1. lia.
+  - destruct (mod_exact bint1 c N1 Nc Hc) as (r & Er & Vr & Nr).
+    exists r. split; [exact Er|]. split; [|exact Nr]. rewrite Vr, E0. reflexivity.
   - destruct (mod_exact a c Na Nc Hc) as (reda & Er & Vr & Nr). rewrite Er.
     destruct (sign_tests_exact reda Nr) as (_ & Ezr & _). rewrite Ezr.
     destruct (Z.eqb_spec (val reda) 0) as [Er0|Nr0].
